@@ -566,10 +566,17 @@ class IntervalKind(AbsInt):
 
     def return_alts(self, fr):
         """[(value, definite)] per return path that is not excluded; definite: the path is taken by some concrete batch."""
+        return self.path_alts(fr, ast.Return)
+
+    def raise_alts(self, fr):
+        """[(raise statement, definite)] per path ending in a raise that the abstract inputs do not exclude."""
+        return self.path_alts(fr, ast.Raise)
+
+    def path_alts(self, fr, end_type):
         fn = fr.fn
         alts = []
         for path in enum_paths(fn.body()):
-            if not isinstance(path.end, ast.Return):
+            if not isinstance(path.end, end_type):
                 continue
             sub = Frame(fn, dict(fr.params), fr.concrete, fr.depth, path=path)
             feasible, definite, n_both = True, True, 0
@@ -588,6 +595,9 @@ class IntervalKind(AbsInt):
                 else:
                     definite = False
             if not feasible:
+                continue
+            if end_type is ast.Raise:
+                alts.append((path.end, definite and n_both == 0))
                 continue
             val = self.value(path.end.value, sub) if path.end.value is not None else TOP
             alts.append((val, definite and n_both <= 1))
